@@ -805,7 +805,7 @@ def mr_run(work, binary, verdict, stats, tier, seed):
     cex_c = dict(MR_BASE, ops=5, defects=["c"])
     cex_d = dict(conc_b, srcs=["s1"], grams=1, closes=0, defects=["d"])
     probe_seq = ["DispatchOp(%s,%s)" % (x, k) for x in ("s1", "m1", "s6") for k in ("data", "u1", "u2")]
-    probe_conc = ["DRead(s1,data)", "DLookup", "DUfrag", "DEnq", "DRead(s1,u1)", "DLookup", "DUfrag", "DEnq"]
+    probe_conc = ["DRead(s1,data)", "DLookup", "DUfrag", "DEnq", "DPut", "DRead(s1,u1)", "DLookup", "DUfrag", "DEnq", "DPut"]
     jobs = [lambda: mr_config(work, binary, verdict, stats, seed, "MuxRoute_seq", seqc, 1500),
             lambda: mr_config(work, binary, verdict, stats, seed, "MuxRoute_conc_2conns", conc_a, 1500),
             lambda: mr_config(work, binary, verdict, stats, seed, "MuxRoute_conc_1conn", conc_b, 1500),
